@@ -21,7 +21,7 @@
      statuses (A,B)), leading from statuses st at clock t to st' at t'; times never decrease
      and stay below tmax. *)
 From EoNV Require Import Prelude Samp Graph ListDict ListDictP Gillespie KldP GillespieInv SampP Simple SimpleP
-  SimpleExecS SimpleExec SimpleExecLog SimpleExecTop.
+  SimpleExecS SimpleExec SimpleExecLog SimpleExecTop SimpleExecFuel.
 
 (* ---- scripted execution only follows possible outcomes, and logs its calls ---- *)
 Theorem C03x_exec_follows_the_program :
@@ -158,6 +158,15 @@ Theorem C03x_log_chronological :
   forall a e1 e2 b, evs = a ++ e1 :: e2 :: b -> ge_t e1 <= ge_t e2.
 Proof. intros H J. exact (glog_sorted g H J tmax). Qed.
 
+(* ---- fuel is only the recursion bound of the executable model: a draw script no longer than
+   the fuel never exhausts it (every loop iteration consumes at least the waiting-time draw), so
+   with fuel >= |ds| the two theorems above say: Ok, or the script ran out ---- *)
+Theorem C03x_fuel_suffices :
+  forall sortable spont induced fuel ds,
+  Forall (sp_tr_ok g) spont -> Forall (in_tr_ok g) induced -> (length ds <= fuel)%nat ->
+  fst (exec (simple g sortable spont induced ic rstat tmin tmax full fuel) ds []) <> Err OutOfFuel.
+Proof. exact (simple_fuel_suffices g Hg ic rstat tmin tmax full). Qed.
+
 End C03x.
 
 (* ---- non-vacuity: the weighted SIS-like specification of Props/C03.v on the path 0-1-2 meets
@@ -191,4 +200,5 @@ Print Assumptions C03x_step_is_one_enabled_transition.
 Print Assumptions C03x_output_is_one_log_of_enabled_transitions.
 Print Assumptions C03x_log_times.
 Print Assumptions C03x_log_chronological.
+Print Assumptions C03x_fuel_suffices.
 Print Assumptions C03x_example.
